@@ -516,7 +516,8 @@ func clip(s string) string {
 // ---- parser clause ----
 
 // renderBigAsNull renders a generic tree with every gen.Big replaced by nil: what Generify makes of
-// the json.Number oj.Parser delivers in the same place (known finding C18-generify-number).
+// the json.Number oj.Parser delivered in the same place before repository commit ffa6627 (finding
+// C18-generify-number, now in the fixed list; only consulted while that id is in the known list).
 func renderBigAsNull(v any) string {
 	switch t := v.(type) {
 	case gen.Big:
